@@ -23,16 +23,17 @@ TRUSTED_BASE = [
 # disagreement is by itself a failing input of the property (the model is the property's
 # reference encoder/decoder), otherwise only X lines are failing inputs.
 PROPS = {
-    'C01': dict(engine='codec', modes=['rt'], witness=False, values=(16, 300)),
+    # also_rel: the same operations once more in a build with the library's own flags (-O2, no sanitizer)
+    'C01': dict(engine='codec', modes=['rt'], witness=False, values=(16, 300), also_rel=True),
     'C02': dict(engine='codec', modes=['hostile'], witness=False, values=(6, 30)),
-    'C03': dict(engine='codec', modes=['bytes'], witness=True, values=(60, 2000)),
-    'C04': dict(engine='codec', modes=['lang'], witness=True, values=(6, 14)),
-    'C05': dict(engine='codec', modes=['cut'], witness=False, values=(8, 60)),
+    'C03': dict(engine='codec', modes=['bytes'], witness=True, values=(60, 2000), also_rel=True),
+    'C04': dict(engine='codec', modes=['lang'], witness=True, values=(6, 14), also_rel=True),
+    'C05': dict(engine='codec', modes=['cut'], witness=False, values=(8, 60), also_rel=True),
     'C06': dict(engine='codec', modes=['cap'], witness=False, values=(10, 150)),
     'C10': dict(witness=False, stages=[
         dict(engine='codec', modes=['fault'], values=(10, 150)),
         dict(engine='single', name='rpc', builder='build_rpc', runs=[['--mode', 'rpcfault']], shards=2)]),
-    'C11': dict(engine='codec', modes=['prior'], witness=False, values=(8, 40)),
+    'C11': dict(engine='codec', modes=['prior'], witness=False, values=(8, 40), also_rel=True),
     # engine 'util': harness/util_main.cpp (single binary); the model is the contract itself
     'C16': dict(engine='util', modes=['rseq', 'wseq'], witness=True),
     'C17': dict(engine='util', modes=['rseq', 'wseq'], witness=True),
@@ -237,15 +238,22 @@ class Run:
             self.account(sums, 'each evaluation is one operation history / input executed on the real library and on the Lean model and '
                                'compared (per-operation observations, final state of every object, event log); distinct = distinct history lines')
 
-    def codec_stage(self, pair=False):
-        bins = nv.build_pair(self.cfg.get('pool', 'x')) if pair else nv.build_codec(self.cfg.get('pool', 'a'))
-        nvals = self.cfg['values'][1 if self.tier == 'thorough' else 0]
+    def codec_stage(self, pair=False, flavor=None):
+        if flavor is None:
+            flavor = os.environ.get('NOPV_FLAVOR') or self.cfg.get('flavor', 'san')
+            if self.cfg.get('also_rel') and flavor == 'san':
+                self.codec_stage(pair, 'san')
+                self.codec_stage(pair, 'rel')
+                return
+        bins = nv.build_pair(self.cfg.get('pool', 'x')) if pair else nv.build_codec(self.cfg.get('pool', 'a'), flavor)
+        deep = self.tier == 'thorough' and flavor == 'san'
+        nvals = self.cfg['values'][1 if deep else 0]
         for mode in self.cfg['modes']:
             args = ['--mode', mode, '--seed', str(self.seed), '--values', str(nvals)]
-            if self.tier == 'thorough':
+            if deep:
                 args.append('--thorough')
             sums = nv.pipeline([[b] + args for b in bins], self.driver)
-            self.absorb(sums, ('pair/' if pair else 'codec/') + mode)
+            self.absorb(sums, ('pair/' if pair else 'codec/') + mode + ('' if flavor == 'san' else '@' + flavor))
             self.account(sums, 'each evaluation is one operation executed on the real library and on the Lean model and compared; '
                                'distinct = distinct operation lines; non-trivial = the implementation got past the first prefix byte '
                                '(anything but UnexpectedEncodingType at the top level)', nontrivial=True)
